@@ -914,7 +914,7 @@ func init() {
 		c.Group("C18/validated-first", "each setter validates its parameter before it changes the served options", func() { ruleValidatedBeforePublished(c) })
 		c.Group("C18/domain", "domain checks: ratios, registered scheduler types (every entry), isolation level ∈ location labels, non-negative flow digit", func() { ruleDomainAtoms(c) })
 		c.Group("C18/snapshot-rollback", "every function that mutates the served options, persists and returns the error restores each mutated section from a snapshot taken before the first mutation", func() { ruleSnapshotRollback(c); ruleInstalledChangeIsPersisted(c); ruleRevertPersistsSnapshot(c) })
-		c.Group("C18/served-config-not-shared", "configuration objects handed to API code are clones", func() { ruleServedConfigNotShared(c) })
+		c.Group("C18/served-config-not-shared", "configuration objects handed to API code are clones", func() { ruleServedConfigNotShared(c); ruleLabelPropertyEditedOnClone(c) })
 		c.Group("C18/reload-identity", "the reload-time migration of deprecated flags leaves values written by this version unchanged", func() { ruleReloadMigration(c) })
 		c.Group("C18/memo-after-outcome", "(shared with C17) the storage layer remembers nothing about a config write whose outcome is still open: a cached copy of the stored value is updated only after the write succeeded", func() { ruleStorageMemoAfterOutcome(c) })
 		c.Group("C18/rmw-no-wait", "a section that is read, edited and installed again is not held across a wait", func() { ruleConfigRMWNoWait(c) })
@@ -1002,5 +1002,50 @@ func ruleInstalledChangeIsPersisted(c *Ctx) {
 	}
 	if n < 5 {
 		c.Undec(rule, "server methods installing a served section", "at least 5", "", fmt.Sprint(n))
+	}
+}
+
+// ruleLabelPropertyEditedOnClone: the label-property map is rebuilt on a clone
+// and stored whole; an edit of the served map is visible before it is persisted
+// and defeats the caller's rollback (its `old` is the very map that was edited).
+func ruleLabelPropertyEditedOnClone(c *Ctx) {
+	P := c.P
+	rule := c.Prop + "/served-config-not-shared"
+	clone := F(P.Method(cfgPkg, "LabelPropertyConfig", "Clone"))
+	lpT := P.named(cfgPkg, "LabelPropertyConfig")
+	n := 0
+	for _, fn := range P.Funcs {
+		if P.isScaffold(fn) || fnPkgPath(fn) != modPath+"/"+cfgPkg || fn.Signature.Recv() == nil {
+			continue
+		}
+		if rn := namedOf(fn.Signature.Recv().Type()); rn == nil || rn.Obj().Name() != "PersistOptions" {
+			continue
+		}
+		k := 0
+		for _, b := range fn.Blocks {
+			for _, ins := range b.Instrs {
+				var m ssa.Value
+				switch x := ins.(type) {
+				case *ssa.MapUpdate:
+					m = x.Map
+				case *ssa.Call:
+					if bi, ok := x.Call.Value.(*ssa.Builtin); ok && bi.Name() == "delete" && len(x.Call.Args) == 2 {
+						m = x.Call.Args[0]
+					}
+				}
+				if m == nil {
+					continue
+				}
+				if nn := namedOf(m.Type()); nn == nil || nn.Obj() != lpT.Obj() {
+					continue
+				}
+				k++
+				n++
+				c.Check(derivesFrom(m, resultOfCall(clone), 4), rule, fmt.Sprintf("label-property edit #%d in %s", k, fnName(fn)), "the map that is edited is a Clone() of the served one", P.instrPos(ins), "the served map is edited in place")
+			}
+		}
+	}
+	if n < 3 {
+		c.Undec(rule, "edits of a label-property map in PersistOptions", "at least 3", "", fmt.Sprint(n))
 	}
 }
